@@ -309,11 +309,13 @@ class ParseNeighbor(Section):
         self._neighbors: list[bytes] = []
         self.neighbors: dict[str, Neighbor] = {}
         self._staged_routes: list[tuple[Neighbor, Any]] = []
+        self._staged_ribs: list[Neighbor] = []
 
     def clear(self) -> None:
         self._neighbors = []
         self.neighbors = {}
         self._staged_routes = []
+        self._staged_ribs = []
 
     def apply_staged_routes(self) -> None:
         """Queue the routes of the parsed neighbors in their RIB: only once the whole configuration is accepted.
@@ -321,6 +323,9 @@ class ParseNeighbor(Section):
         The RIB is shared by name with the neighbor of the running peer.  Adding the routes while a section was being
         parsed meant that a reload refused for an error further down had already changed what the running peers announce.
         """
+        ribs, self._staged_ribs = self._staged_ribs, []
+        for neighbor in ribs:
+            neighbor.rib.commit()
         staged, self._staged_routes = self._staged_routes, []
         for neighbor, route in staged:
             neighbor.rib.outgoing.add_to_rib_watchdog(route)
@@ -643,7 +648,9 @@ class ParseNeighbor(Section):
                 m_neighbor.rib.outgoing.families = {family}
                 self._init_neighbor(m_neighbor, local)
         else:
-            neighbor.make_rib()
+            # the RIB may be the one the running peer uses: its settings change when the configuration is committed
+            neighbor.make_rib(staged=True)
+            self._staged_ribs.append(neighbor)
             self._init_neighbor(neighbor, local)
 
         local.clear()
